@@ -1,10 +1,8 @@
-import Pixman.Model.DrawFrame
 import Pixman.Props.C10
 import Pixman.Props.C03Final
 import Pixman.Props.C17Draw
 import Pixman.Props.C19
 import Pixman.Props.C12
-import Pixman.Props.C04
 /-!
   The drawing frame (C03, second half): memory-level frame lemmas.
 
@@ -22,6 +20,7 @@ namespace Pixman.DrawFrame
 open Pixman.Model.Format Pixman.Lemmas.FormatMem
 open Pixman.Gen.Formats (Rec formats)
 
+abbrev FImage := Pixman.Model.Format.Image
 
 /-- pixel position `x` lies inside a row: its bits end before the next row starts -/
 def InRow (img : FImage) (bpp x : Nat) : Prop := (x + 1) * bpp ≤ 32 * img.rowstride
@@ -289,6 +288,24 @@ theorem within_storeScanline (r : Rec) (hr : r ∈ formats) (ha : r.acc = 1) (im
 
 open Pixman.CompositeRegion (Info InRect)
 
+/-- the values handed to the write-back of row `j` of an `info` rectangle: anything computed from
+    the memory as it is before the row is stored (source, mask and destination rows fetched, the
+    combiner applied), column by column -/
+abbrev RowComb := Mem → Info → Nat → Nat → Nat
+
+/-- `dest_iter.write_back` of one row of `general_composite_rect`:
+    `image->store_scanline_32 (image, x, y, width, buffer)` -/
+def storeInfoRow (img : FImage) (comb : RowComb) (i : Info) (m : Mem) (j : Nat) : Mem :=
+  storeScanline img m i.destX.toNat (i.destY.toNat + j) ((List.range i.width.toNat).map (comb m i j))
+
+/-- `general_composite_rect (imp, info)`: `for (i = 0; i < height; ++i)` combine and write back -/
+def paintInfoMem (img : FImage) (comb : RowComb) (m : Mem) (i : Info) : Mem :=
+  (List.range i.height.toNat).foldl (storeInfoRow img comb i) m
+
+/-- a sequence of composite-function calls -/
+def paintInfosMem (img : FImage) (comb : RowComb) (infos : List Info) (m : Mem) : Mem :=
+  infos.foldl (paintInfoMem img comb) m
+
 theorem within_paintInfo (r : Rec) (hr : r ∈ formats) (ha : r.acc = 1) (img : FImage)
     (hf : img.format = r.code) (comb : RowComb) (S : Nat → Nat → Prop) (i : Info)
     (h0 : 0 ≤ i.destX ∧ 0 ≤ i.destY)
@@ -319,6 +336,16 @@ theorem within_paintInfos (r : Rec) (hr : r ∈ formats) (ha : r.acc = 1) (img :
 /-! ### a composite request on the general path -/
 
 open Pixman.Region Pixman.CompositeRegion
+
+abbrev CImage := Pixman.CompositeRegion.Image
+
+/-- `pixman_image_composite32` with the general implementation's composite function: the region is
+    computed, then every box of it is handed to `general_composite_rect`, whose destination iterator
+    writes each combined row back with the format's scanline store (C10) -/
+def generalCompositeMem (img : FImage) (comb : RowComb) (src : CImage) (mask : Option CImage) (dest : CImage)
+    (sx sy mx my dx dy w h : Int) (m : Mem) : Mem :=
+  let p := computeCompositeRegion32 src mask dest sx sy mx my dx dy w h
+  if p.2 then paintInfosMem img comb (compositeBoxes p.1 sx sy mx my dx dy) m else m
 
 /-- the intersection `R` of the property statement on natural pixel coordinates -/
 def RNat (src : CImage) (mask : Option CImage) (dest : CImage) (sx sy mx my dx dy w h : Int) (x y : Nat) : Prop :=
@@ -404,6 +431,22 @@ theorem bitsWithin_of_within {bpp : Nat} (hbpp : Bpp bpp) {img : FImage} {S : Na
     (hbm : m.Bytes) (h : Within img bpp S m m') (hrow : ∀ x y, S x y → InRow img bpp x) :
     BitsWithin (PixBits img bpp S) m m' :=
   ⟨h.bytes, fun k hk => within_bits hbpp hbm h hrow k (fun x y hs hin => hk ⟨x, y, hs, hin⟩)⟩
+
+/-- `dest_write_back_narrow` for a destination with an alpha map: the row goes to the image and, at
+    `(x - alpha_origin_x, y - alpha_origin_y)`, to the alpha map -/
+def storeInfoRowA (imgD imgA : FImage) (ox oy : Int) (comb : RowComb) (i : Info) (m : Mem) (j : Nat) : Mem :=
+  let vs := (List.range i.width.toNat).map (comb m i j)
+  storeScanline imgA (storeScanline imgD m i.destX.toNat (i.destY.toNat + j) vs)
+    (i.destX - ox).toNat (i.destY + (j : Int) - oy).toNat vs
+
+def paintInfoMemA (imgD imgA : FImage) (ox oy : Int) (comb : RowComb) (m : Mem) (i : Info) : Mem :=
+  (List.range i.height.toNat).foldl (storeInfoRowA imgD imgA ox oy comb i) m
+
+/-- a composite request on the general path, destination with alpha map `a` stored in `imgA` -/
+def generalCompositeAlphaMem (imgD imgA : FImage) (comb : RowComb) (src : CImage) (mask : Option CImage)
+    (dest : CImage) (a : AlphaMap) (sx sy mx my dx dy w h : Int) (m : Mem) : Mem :=
+  let p := computeCompositeRegion32 src mask dest sx sy mx my dx dy w h
+  if p.2 then (compositeBoxes p.1 sx sy mx my dx dy).foldl (paintInfoMemA imgD imgA a.ox a.oy comb) m else m
 
 /-- the alpha-map pixels that correspond to the pixels of `R`: `(x - origin_x, y - origin_y)` -/
 def RAlpha (src : CImage) (mask : Option CImage) (dest : CImage) (a : AlphaMap) (sx sy mx my dx dy w h : Int)
@@ -878,335 +921,3 @@ theorem touches_of_eq (n : Nat) (img out : Img) (hwf : ImgWF n img) (s : Shape)
   exact ⟨rfl, rfl, rfl, rfl, fun ρ c hρ hc h0 => addShape_frame n img hwf s ρ c hρ hc h0⟩
 
 end Pixman.DrawFrame.TrapFrame
-
-namespace Pixman.DrawFrame.TrapFrame
-open Pixman.Trap Pixman.Gen.SampleGrid Pixman.Spec.SampleGrid Pixman.Gen.EdgeClamps
-open Pixman.Lemmas.Trap Pixman.Lemmas.TrapRows Pixman.Lemmas.TrapShape Pixman.Lemmas.TrapSetup Pixman.Lemmas.TrapBounds
-
-/-! ### unconditional row frame (on C04's S8) -/
-
-/-- C04's `Frame` with an arbitrary set of rows: dimensions, flags, number and length of rows stay;
-    rows outside `P` are untouched -/
-structure FrameP (img out : Img) (P : Nat → Prop) : Prop where
-  width : out.width = img.width
-  height : out.height = img.height
-  oob : out.oob = img.oob
-  runaway : out.runaway = img.runaway
-  nrows : out.rows.size = img.rows.size
-  rowlen : ∀ k : Nat, (out.rows[k]?.getD #[]).size = (img.rows[k]?.getD #[]).size
-  outside : ∀ k : Nat, ¬ P k → out.rows[k]? = img.rows[k]?
-
-theorem FrameP.refl (img : Img) (P : Nat → Prop) : FrameP img img P :=
-  ⟨rfl, rfl, rfl, rfl, rfl, fun _ => rfl, fun _ _ => rfl⟩
-
-theorem FrameP.trans {a b c : Img} {P : Nat → Prop} (h1 : FrameP a b P) (h2 : FrameP b c P) : FrameP a c P :=
-  ⟨h2.width.trans h1.width, h2.height.trans h1.height, h2.oob.trans h1.oob, h2.runaway.trans h1.runaway,
-   h2.nrows.trans h1.nrows, fun k => (h2.rowlen k).trans (h1.rowlen k),
-   fun k hk => (h2.outside k hk).trans (h1.outside k hk)⟩
-
-theorem FrameP.mono {a b : Img} {P Q : Nat → Prop} (h : FrameP a b P) (hpq : ∀ k, P k → Q k) : FrameP a b Q :=
-  ⟨h.width, h.height, h.oob, h.runaway, h.nrows, h.rowlen, fun k hk => h.outside k (fun hp => hk (hpq k hp))⟩
-
-theorem FrameP.of_frame {a b : Img} {lo hi : Int} (h : Frame a b lo hi) :
-    FrameP a b (fun k => lo ≤ (k : Int) ∧ (k : Int) ≤ hi) :=
-  ⟨h.width, h.height, h.oob, h.runaway, h.nrows, h.rowlen, fun k hk => h.outside k (by omega)⟩
-
-/-- the pixel rows between the first and the last sample row an entry point hands to
-    `pixman_rasterize_edges` (after its clamps): `pixman_fixed_to_int (t) … pixman_fixed_to_int (b)` -/
-def SetupRows (s : Option (Int × Int × Edge × Edge)) (k : Nat) : Prop :=
-  ∃ t b l r, s = some (t, b, l, r) ∧ t / 65536 ≤ (k : Int) ∧ (k : Int) ≤ b / 65536
-
-/-- C04's `clamped_run_frame` without the final widening: the rows touched are those of the clamped
-    sample-row range -/
-theorem clamped_run_rows (n : Nat) (hn : Depth n) (img : Img) (hsz : img.rows.size = img.height) (l r : Edge) (T B : Int)
-    (hT : -2147483648 ≤ T ∧ T ≤ 2147483647) (hB : -2147483648 ≤ B ∧ B ≤ 2147483647)
-    (hrun : sampleFloorY (if fixedToInt B ≥ (img.height : Int) then wrap32 (intToFixed (img.height : Int) - 1) else B) n ≥
-            sampleCeilY (if T < 0 then 0 else T) n) :
-    Frame img (rasterizeEdges n img l r (sampleCeilY (if T < 0 then 0 else T) n)
-      (sampleFloorY (if fixedToInt B ≥ (img.height : Int) then wrap32 (intToFixed (img.height : Int) - 1) else B) n))
-      (sampleCeilY (if T < 0 then 0 else T) n / 65536)
-      (sampleFloorY (if fixedToInt B ≥ (img.height : Int) then wrap32 (intToFixed (img.height : Int) - 1) else B) n / 65536) := by
-  have hb := clampBot_row B img.height hB
-  simp only at hb
-  have hT' : 0 ≤ (if T < 0 then 0 else T) ∧ (if T < 0 then 0 else T) ≤ 2147483647 := by split <;> omega
-  obtain ⟨g1, g2, g3, g4⟩ := Pixman.Lemmas.TrapSetup.sampleRows_in_image n hn img.height _ _ hT' hb.1 hb.2 hrun
-  have ht0 : 0 ≤ sampleCeilY (if T < 0 then 0 else T) n := by
-    apply Classical.byContradiction; intro hneg
-    have : sampleCeilY (if T < 0 then 0 else T) n / 65536 < 0 := by omega
-    omega
-  have hb2 : sampleFloorY (if fixedToInt B ≥ (img.height : Int) then wrap32 (intToFixed (img.height : Int) - 1) else B) n ≤ 2147483647 := by
-    by_cases hbig : -2147483648 + yFracFirst n <
-        (if fixedToInt B ≥ (img.height : Int) then wrap32 (intToFixed (img.height : Int) - 1) else B)
-    · have := (Pixman.Lemmas.TrapSetup.sampleFloorY_grid n hn _ hbig hb.1.2).2.1; omega
-    · have := (Pixman.Lemmas.TrapSetup.sampleFloorY_saturates n hn _ hb.1.1 (by omega)).1; omega
-  exact rasterizeEdges_frame n hn img hsz l r _ _ g1 g2 hrun ht0 g4 hb2
-
-/-- `pixman_rasterize_trapezoid`, ANY trapezoid and offsets: only the rows of its clamped sample-row range -/
-theorem rasterizeTrapezoid_rows (n : Nat) (hn : Depth n) (img : Img) (hsz : img.rows.size = img.height)
-    (tr : Trapezoid) (xOff yOff : Int) :
-    FrameP img (rasterizeTrapezoid n img tr xOff yOff) (SetupRows (trapezoidSetup n img.height tr xOff yOff)) := by
-  unfold rasterizeTrapezoid
-  cases hs : trapezoidSetup n img.height tr xOff yOff with
-  | none => exact FrameP.refl ..
-  | some q =>
-    obtain ⟨t, b, l, r⟩ := q
-    simp only []
-    obtain ⟨e1, e2, hrun⟩ := Pixman.Props.C04.trapezoidSetup_clamps_first_last n img.height tr xOff yOff t b l r hs
-    have F := clamped_run_rows n hn img hsz l r (wrap32 (tr.top + intToFixed yOff)) (wrap32 (tr.bottom + intToFixed yOff))
-      (wrap32_range _) (wrap32_range _) (by
-        unfold clampTopTrapezoid at e1; unfold clampBotTrapezoid at e2
-        rw [← e1, ← e2]; exact hrun)
-    unfold clampTopTrapezoid at e1; unfold clampBotTrapezoid at e2
-    rw [← e1, ← e2] at F
-    exact (FrameP.of_frame F).mono (fun k hk => ⟨t, b, l, r, rfl, hk.1, hk.2⟩)
-
-/-- one iteration of `pixman_add_traps` -/
-theorem addTrap_rows (n : Nat) (hn : Depth n) (img : Img) (hsz : img.rows.size = img.height) (xo yo : Int) (tr : Trap) :
-    FrameP img (addTrap n img xo yo tr) (SetupRows (trapSetup n img.height xo yo tr)) := by
-  unfold addTrap
-  cases hs : trapSetup n img.height xo yo tr with
-  | none => exact FrameP.refl ..
-  | some q =>
-    obtain ⟨t, b, l, r⟩ := q
-    simp only []
-    obtain ⟨e1, e2, hrun⟩ := Pixman.Props.C04.trapSetup_clamps_first_last n img.height xo yo tr t b l r hs
-    have F := clamped_run_rows n hn img hsz l r (wrap32 (tr.topY + yo)) (wrap32 (tr.botY + yo))
-      (wrap32_range _) (wrap32_range _) (by
-        unfold clampTopTraps at e1; unfold clampBotTraps at e2
-        rw [← e1, ← e2]; exact hrun)
-    unfold clampTopTraps at e1; unfold clampBotTraps at e2
-    rw [← e1, ← e2] at F
-    exact (FrameP.of_frame F).mono (fun k hk => ⟨t, b, l, r, rfl, hk.1, hk.2⟩)
-
-/-- lists: the rows touched are the union of the rows of the shapes -/
-theorem foldl_frameP {α : Type} (f : Img → α → Img) (Q : α → Nat → Nat → Prop)
-    (hf : ∀ img a, img.rows.size = img.height → FrameP img (f img a) (Q a img.height)) (xs : List α) :
-    ∀ img : Img, img.rows.size = img.height → FrameP img (xs.foldl f img) (fun k => ∃ a ∈ xs, Q a img.height k) := by
-  induction xs with
-  | nil => intro img _; exact FrameP.refl ..
-  | cons a rest ih =>
-    intro img hsz
-    rw [List.foldl_cons]
-    have h1 := hf img a hsz
-    have hsz' : (f img a).rows.size = (f img a).height := by rw [h1.nrows, h1.height]; exact hsz
-    have h2 := ih (f img a) hsz'
-    rw [h1.height] at h2
-    exact (h1.mono (fun k hk => ⟨a, List.mem_cons_self, hk⟩)).trans
-      (h2.mono (fun k ⟨b, hb, hq⟩ => ⟨b, List.mem_cons_of_mem _ hb, hq⟩))
-
-theorem addTrapezoids_rows (n : Nat) (hn : Depth n) (img : Img) (hsz : img.rows.size = img.height) (xOff yOff : Int)
-    (traps : List Trapezoid) :
-    FrameP img (addTrapezoids n img xOff yOff traps)
-      (fun k => ∃ tr ∈ traps, tr.valid = true ∧ SetupRows (trapezoidSetup n img.height tr (wrap16 xOff) yOff) k) := by
-  unfold addTrapezoids
-  simp only []
-  exact foldl_frameP _ (fun tr H k => tr.valid = true ∧ SetupRows (trapezoidSetup n H tr (wrap16 xOff) yOff) k)
-    (fun img tr h => by
-      show FrameP img (if tr.valid = true then rasterizeTrapezoid n img tr (wrap16 xOff) yOff else img) _
-      by_cases hv : tr.valid = true
-      · rw [if_pos hv]
-        exact (rasterizeTrapezoid_rows n hn img h tr _ _).mono (fun k hk => ⟨hv, hk⟩)
-      · rw [if_neg hv]; exact FrameP.refl ..) traps img hsz
-
-theorem addTraps_rows (n : Nat) (hn : Depth n) (img : Img) (hsz : img.rows.size = img.height) (xOff yOff : Int)
-    (traps : List Trap) :
-    FrameP img (addTraps n img xOff yOff traps)
-      (fun k => ∃ tr ∈ traps, SetupRows (trapSetup n img.height (intToFixed (wrap16 xOff)) (intToFixed (wrap16 yOff)) tr) k) := by
-  unfold addTraps
-  simp only []
-  exact foldl_frameP _ (fun tr H k => SetupRows (trapSetup n H (intToFixed (wrap16 xOff)) (intToFixed (wrap16 yOff)) tr) k)
-    (fun img tr h => addTrap_rows n hn img h _ _ tr) traps img hsz
-
-/-- `pixman_add_triangles`: the two trapezoids of every triangle -/
-theorem addTriangles_rows (n : Nat) (hn : Depth n) (img : Img) (hsz : img.rows.size = img.height) (xOff yOff : Int)
-    (tris : List Triangle) :
-    FrameP img (addTriangles n img xOff yOff tris)
-      (fun k => ∃ tr ∈ (tris.flatMap fun t => [(triangleToTrapezoids t).1, (triangleToTrapezoids t).2]),
-        tr.valid = true ∧ SetupRows (trapezoidSetup n img.height tr (wrap16 xOff) yOff) k) := by
-  unfold addTriangles
-  exact addTrapezoids_rows n hn img hsz xOff yOff _
-
-/-- the image is `height` rows of `width` cells -/
-def Shaped (img : Img) : Prop :=
-  img.rows.size = img.height ∧ ∀ r, r < img.height → (img.rows[r]?.getD #[]).size = img.width
-
-/-- a pixel that differs lies in the image and in a row of `P` -/
-theorem FrameP.pixels {img out : Img} {P : Nat → Prop} (F : FrameP img out P) (hs : Shaped img) (r c : Nat)
-    (hne : px out.rows r c ≠ px img.rows r c) : c < img.width ∧ r < img.height ∧ P r := by
-  have hP : P r := Classical.byContradiction fun hn => hne (by unfold px; rw [F.outside r hn])
-  have hr : r < img.height := by
-    apply Classical.byContradiction; intro hge
-    apply hne
-    have e1 : out.rows[r]? = none := Array.getElem?_eq_none_iff.2 (by rw [F.nrows, hs.1]; omega)
-    have e2 : img.rows[r]? = none := Array.getElem?_eq_none_iff.2 (by rw [hs.1]; omega)
-    unfold px
-    rw [e1, e2]
-  refine ⟨?_, hr, hP⟩
-  apply Classical.byContradiction; intro hge
-  apply hne
-  have s1 := hs.2 r hr
-  have s2 := F.rowlen r
-  unfold px
-  rw [Array.getElem?_eq_none_iff.2 (by omega), Array.getElem?_eq_none_iff.2 (by omega)]
-
-end Pixman.DrawFrame.TrapFrame
-
-namespace Pixman.DrawFrame
-open Pixman.Model.Format Pixman.Lemmas.FormatMem
-
-/-- one pixel store (the switch of `convert_and_store_pixel`) as a `Within` step: C10's
-    `store_changes_only_addressed_pixel`, read across rows -/
-theorem within_storeRaw {bpp : Nat} (hbpp : Bpp bpp) (img : FImage) (S : Nat → Nat → Prop) (m : Mem) (hb : m.Bytes)
-    (x y v : Nat) (hS : S x y) (hx : InRow img bpp x) :
-    Within img bpp S m (storeRaw m (img.row y) x bpp v) := by
-  refine ⟨storeRaw_bytes m _ _ _ _ hb, ?_, ?_⟩
-  · intro x0 y0 hx0 hs0
-    by_cases hy : y0 = y
-    · subst hy
-      exact fetchRaw_storeRaw_other m hb _ x x0 bpp v hbpp (fun e => hs0 (e ▸ hS))
-    · apply fetchRaw_congr hbpp
-      intro a ha1 ha2
-      apply storeRaw_frame m _ _ _ _ _ hbpp
-      have u0 := unit_in_row img hbpp x0 y0 hx0
-      have u1 := unit_in_row img hbpp x y hx
-      rcases Nat.lt_or_gt_of_ne hy with hlt | hgt
-      · have := row_succ_le img hlt; omega
-      · have := row_succ_le img hgt; omega
-  · intro a hout
-    exact storeRaw_frame m _ _ _ _ _ hbpp (hout x y hS)
-
-namespace TrapFrame
-open Pixman.Trap Pixman.Lemmas.TrapShape
-
-/-! ### C12's pixel-array image in C10's byte memory -/
-
-/-- the cells of a `w × h` image, row-major -/
-def cells (w h : Nat) : List (Nat × Nat) := (List.range h).flatMap fun r => (List.range w).map fun c => (r, c)
-
-theorem mem_cells (w h r c : Nat) : (r, c) ∈ cells w h ↔ r < h ∧ c < w := by
-  unfold cells
-  simp only [List.mem_flatMap, List.mem_range, List.mem_map, Prod.mk.injEq]
-  constructor
-  · rintro ⟨r', hr', c', hc', rfl, rfl⟩; exact ⟨hr', hc'⟩
-  · rintro ⟨hr, hc⟩; exact ⟨r, hr, c, hc, rfl, rfl⟩
-
-/-- one array-cell update as a memory operation: the cell's new value through C10's pixel store -/
-def realizeCell (fimg : FImage) (n : Nat) (img out : Img) (m : Mem) (rc : Nat × Nat) : Mem :=
-  if px out.rows rc.1 rc.2 = px img.rows rc.1 rc.2 then m
-  else storeRaw m (fimg.row rc.1) rc.2 n (px out.rows rc.1 rc.2)
-
-/-- the byte-memory counterpart of the array update `img → out` of depth `n` (a1 / a4 / a8 stored at
-    `fimg`): every cell whose value changed is written with one C10 pixel store -/
-def realize (fimg : FImage) (n : Nat) (img out : Img) (m : Mem) : Mem :=
-  (cells img.width img.height).foldl (realizeCell fimg n img out) m
-
-/-- memory `m` holds the pixel array `img` at `fimg` -/
-def Holds (fimg : FImage) (n : Nat) (m : Mem) (img : Img) : Prop :=
-  ∀ r c, r < img.height → c < img.width → fetchRaw m (fimg.row r) c n = px img.rows r c
-
-/-- the pixels whose value changed -/
-def Changed (img out : Img) (x y : Nat) : Prop :=
-  x < img.width ∧ y < img.height ∧ px out.rows y x ≠ px img.rows y x
-
-theorem realize_within {n : Nat} (hbpp : Bpp n) (fimg : FImage) (img out : Img)
-    (hfit : Fits fimg n img.width) (m : Mem) (hb : m.Bytes) :
-    Within fimg n (Changed img out) m (realize fimg n img out m) := by
-  unfold realize
-  apply within_foldl _ _ _ m hb
-  rintro ⟨r, c⟩ hrc m' hb'
-  rw [mem_cells] at hrc
-  unfold realizeCell
-  simp only []
-  split
-  · exact within_refl hb'
-  · rename_i hne
-    exact within_storeRaw hbpp fimg _ m' hb' c r _ ⟨hrc.2, hrc.1, hne⟩
-      (inRow_of_fits hbpp hfit (by omega))
-
-/-- the realisation holds the new array: the memory after the stores IS the image after the update -/
-theorem realize_holds {n : Nat} (hbpp : Bpp n) (fimg : FImage) (img out : Img)
-    (hfit : Fits fimg n img.width) (hv : ∀ r c, px out.rows r c < 2 ^ n)
-    (hw : out.width = img.width) (hh : out.height = img.height)
-    (m : Mem) (hb : m.Bytes) (hm : Holds fimg n m img) : Holds fimg n (realize fimg n img out m) out := by
-  have key : ∀ (L : List (Nat × Nat)) (m0 : Mem), m0.Bytes →
-      (∀ r c, r < img.height → c < img.width → fetchRaw m0 (fimg.row r) c n = px img.rows r c ∨
-        fetchRaw m0 (fimg.row r) c n = px out.rows r c) →
-      (∀ rc ∈ L, rc.1 < img.height ∧ rc.2 < img.width) →
-      let m1 := L.foldl (realizeCell fimg n img out) m0
-      m1.Bytes ∧ ∀ r c, r < img.height → c < img.width →
-        (((r, c) ∈ L ∨ fetchRaw m0 (fimg.row r) c n = px out.rows r c) → fetchRaw m1 (fimg.row r) c n = px out.rows r c) ∧
-        (fetchRaw m1 (fimg.row r) c n = px img.rows r c ∨ fetchRaw m1 (fimg.row r) c n = px out.rows r c) := by
-    intro L
-    induction L with
-    | nil =>
-      intro m0 hb0 h0 _
-      refine ⟨hb0, fun r c hr hc => ⟨?_, h0 r c hr hc⟩⟩
-      rintro (h | h)
-      · cases h
-      · exact h
-    | cons rc L ih =>
-      intro m0 hb0 h0 hL
-      rw [List.foldl_cons]
-      obtain ⟨r0, c0⟩ := rc
-      have hrc0 := hL (r0, c0) List.mem_cons_self
-      simp only [] at hrc0
-      -- the first step
-      have step : (realizeCell fimg n img out m0 (r0, c0)).Bytes ∧
-          (fetchRaw (realizeCell fimg n img out m0 (r0, c0)) (fimg.row r0) c0 n = px out.rows r0 c0 ∨
-            (px out.rows r0 c0 = px img.rows r0 c0 ∧ realizeCell fimg n img out m0 (r0, c0) = m0)) ∧
-          ∀ r c, c < img.width → (r, c) ≠ (r0, c0) →
-            fetchRaw (realizeCell fimg n img out m0 (r0, c0)) (fimg.row r) c n = fetchRaw m0 (fimg.row r) c n := by
-        unfold realizeCell
-        simp only []
-        split
-        · rename_i heq
-          exact ⟨hb0, Or.inr ⟨heq, rfl⟩, fun _ _ _ _ => rfl⟩
-        · have W := within_storeRaw hbpp fimg (fun x y => x = c0 ∧ y = r0) m0 hb0 c0 r0 (px out.rows r0 c0) ⟨rfl, rfl⟩
-            (inRow_of_fits hbpp hfit (by omega))
-          refine ⟨W.bytes, Or.inl ?_, ?_⟩
-          · rw [fetchRaw_storeRaw_same m0 hb0 _ _ _ _ hbpp, Nat.mod_eq_of_lt (hv r0 c0)]
-          · intro r c hc hne
-            exact W.pixels c r (inRow_of_fits hbpp hfit (by omega)) (fun ⟨e1, e2⟩ => hne (by rw [e1, e2]))
-      obtain ⟨sb, s1, s2⟩ := step
-      have h0' : ∀ r c, r < img.height → c < img.width →
-          fetchRaw (realizeCell fimg n img out m0 (r0, c0)) (fimg.row r) c n = px img.rows r c ∨
-          fetchRaw (realizeCell fimg n img out m0 (r0, c0)) (fimg.row r) c n = px out.rows r c := by
-        intro r c hr hc
-        by_cases he : (r, c) = (r0, c0)
-        · have e1 : r = r0 := (Prod.mk.inj he).1
-          have e2 : c = c0 := (Prod.mk.inj he).2
-          subst e1; subst e2
-          rcases s1 with s1 | ⟨_, s1⟩
-          · exact Or.inr s1
-          · rw [s1]; exact h0 r c hr hc
-        · rw [s2 r c hc he]; exact h0 r c hr hc
-      obtain ⟨b1, i1⟩ := ih _ sb h0' (fun rc hrc => hL rc (List.mem_cons_of_mem _ hrc))
-      refine ⟨b1, fun r c hr hc => ⟨?_, (i1 r c hr hc).2⟩⟩
-      intro hor
-      apply (i1 r c hr hc).1
-      by_cases he : (r, c) = (r0, c0)
-      · have e1 : r = r0 := (Prod.mk.inj he).1
-        have e2 : c = c0 := (Prod.mk.inj he).2
-        subst e1; subst e2
-        right
-        rcases s1 with s1 | ⟨s1a, s1b⟩
-        · exact s1
-        · rw [s1b]
-          rcases hor with _ | h
-          · rcases h0 r c hr hc with h' | h'
-            · rw [h', s1a]
-            · exact h'
-          · exact h
-      · rcases hor with h | h
-        · rcases List.mem_cons.1 h with h | h
-          · exact absurd h he
-          · exact Or.inl h
-        · right; rw [s2 r c hc he]; exact h
-  have := key (cells img.width img.height) m hb (fun r c hr hc => Or.inl (hm r c hr hc))
-    (fun rc hrc => by obtain ⟨r, c⟩ := rc; exact (mem_cells _ _ r c).1 hrc)
-  intro r c hr hc
-  rw [hh] at hr; rw [hw] at hc
-  exact ((this.2 r c hr hc).1 (Or.inl ((mem_cells _ _ r c).2 ⟨hr, hc⟩)))
-
-end TrapFrame
-end Pixman.DrawFrame
